@@ -1,6 +1,7 @@
 package main
 
 import (
+	"golang.org/x/tools/go/ssa"
 	"crypto/sha256"
 	"encoding/hex"
 	"encoding/json"
@@ -555,6 +556,9 @@ func writeEvidence(cfg *CheckCfg, tier string, seed int, eng *Engine, results []
 	ev.Coverage["solver_queries"] = queries
 	ev.Coverage["solver_time_s"] = solverT.Seconds()
 	ev.Coverage["solver"] = "z3 4.8.12 (-in, incremental push/pop, 250 ms budget) with one-shot non-incremental fallback (z3-new 5.1.0, then z3 4.8.12) under the full per-query timeout"
+	cb, ct := writeBlockCoverage(cfg, eng, results)
+	ev.Coverage["code_blocks_executed"] = cb
+	ev.Coverage["code_blocks_in_encoded_functions"] = ct
 	ev.Coverage["functions_encoded"] = sortedSet(funcs)
 	ev.Coverage["models_substituted"] = sortedSet(stubs)
 	ev.Coverage["harnesses"] = harnesses
@@ -570,6 +574,9 @@ func writeEvidence(cfg *CheckCfg, tier string, seed int, eng *Engine, results []
 	if !strings.HasPrefix(cfg.Property, "C") {
 		sub = "selftest" // engine self-tests are not properties
 	}
+	if os.Getenv("VERIF_REPO") != "" {
+		sub = filepath.Join(".work", "evidence-other-tree") // runs against another tree (seeded changes) never touch the evidence of /repo
+	}
 	os.MkdirAll(filepath.Join(verifDir(), sub), 0o755)
 	b, _ := json.MarshalIndent(ev, "", " ")
 	os.WriteFile(filepath.Join(verifDir(), sub, cfg.Property+".json"), b, 0o644)
@@ -582,4 +589,78 @@ func sortedSet(m map[string]bool) []string {
 	}
 	sort.Strings(out)
 	return out
+}
+
+// writeBlockCoverage writes coverage/<id>.txt: for every repository function
+// the symbolic executor entered, which SSA basic blocks no explored path
+// executed (with the source position of their first instruction). It is a
+// vacuity aid: code the harnesses never reach is not decided by the check.
+func writeBlockCoverage(cfg *CheckCfg, eng *Engine, results []*HarnessResult) (covered, total int) {
+	if eng == nil {
+		return 0, 0
+	}
+	union := map[*ssa.Function]map[int]bool{}
+	for _, r := range results {
+		for fn, bm := range r.Stats.Blocks {
+			u := union[fn]
+			if u == nil {
+				u = map[int]bool{}
+				union[fn] = u
+			}
+			for i := range bm {
+				u[i] = true
+			}
+		}
+	}
+	type row struct {
+		name  string
+		lines []string
+		cov   int
+		tot   int
+	}
+	var rows []row
+	for fn, u := range union {
+		if fn.Pkg == nil || !strings.HasPrefix(fn.Pkg.Pkg.Path(), "github.com/mycoria/mycoria") || strings.HasSuffix(fn.Pkg.Pkg.Path(), "/zzvf") {
+			continue
+		}
+		pos := fn.Prog.Fset.Position(fn.Pos())
+		if strings.Contains(pos.Filename, "zz_vf") || strings.Contains(pos.Filename, "/harness/") || !pos.IsValid() {
+			continue
+		}
+		rw := row{name: fn.String(), tot: len(fn.Blocks)}
+		for _, b := range fn.Blocks {
+			if u[b.Index] {
+				rw.cov++
+				continue
+			}
+			where := "?"
+			for _, in := range b.Instrs {
+				if p := in.Pos(); p.IsValid() {
+					pp := fn.Prog.Fset.Position(p)
+					where = fmt.Sprintf("%s:%d", filepath.Base(pp.Filename), pp.Line)
+					break
+				}
+			}
+			rw.lines = append(rw.lines, fmt.Sprintf("    block %d (%s) at %s", b.Index, b.Comment, where))
+		}
+		covered += rw.cov
+		total += rw.tot
+		rows = append(rows, rw)
+	}
+	sort.Slice(rows, func(i, j int) bool { return rows[i].name < rows[j].name })
+	var sb strings.Builder
+	fmt.Fprintf(&sb, "# %s: SSA basic blocks executed by at least one explored path, per repository function entered (%d of %d)\n", cfg.Property, covered, total)
+	for _, rw := range rows {
+		fmt.Fprintf(&sb, "%s  %d/%d\n", rw.name, rw.cov, rw.tot)
+		for _, l := range rw.lines {
+			sb.WriteString(l + "\n")
+		}
+	}
+	dir := filepath.Join(verifDir(), "coverage")
+	if os.Getenv("VERIF_REPO") != "" {
+		dir = filepath.Join(verifDir(), ".work", "coverage-other-tree")
+	}
+	os.MkdirAll(dir, 0o755)
+	os.WriteFile(filepath.Join(dir, cfg.Property+".txt"), []byte(sb.String()), 0o644)
+	return covered, total
 }
